@@ -467,6 +467,21 @@ impl<'a, 'ast> Visit<'ast> for BodyV<'a> {
             pat_names(p, &mut names);
         }
         let is_block = matches!(&*c.body, syn::Expr::Block(_));
+        // E17: a closure whose single parameter is a tuple PATTERN (`|(v, d)| { .. }`; this Verus accepts variables only): the
+        // parameter is called `verif_p` (the typed head comes from the sidecar, E8) and the pattern moves, verbatim, into a `let` that
+        // opens the body - for an irrefutable pattern that is Rust's own definition of a pattern parameter
+        if c.inputs.len() == 1 && is_block {
+            let mut pat = &c.inputs[0];
+            if let syn::Pat::Type(t) = pat {
+                pat = &*t.pat;
+            }
+            if let syn::Pat::Tuple(_) = pat {
+                let (ps, pe) = br(pat.span());
+                let ptxt = self.src[ps..pe].to_string();
+                self.push(bs + 1, bs + 1, &format!(" let {} = verif_p;", ptxt), "E17");
+                names = vec!["verif_p".to_string()];
+            }
+        }
         self.closures.push((o1, bs, be, head_end, names, is_block));
         syn::visit::visit_expr_closure(self, c);
     }
@@ -968,8 +983,23 @@ fn gen_fn(ctx: &mut Ctx, fs_: &FnSpec) -> R<()> {
             let inner = h.trim();
             let inner = inner.strip_prefix('|').ok_or(Fail("closure head must start with |".into()))?;
             let end = inner.find('|').ok_or(Fail("closure head must have closing |".into()))?;
-            inner[..end]
-                .split(',')
+            // split at top-level commas only (a parameter type may be a tuple or a generic)
+            let mut parts: Vec<String> = vec![String::new()];
+            let mut depth = 0i32;
+            for ch in inner[..end].chars() {
+                match ch {
+                    '(' | '<' | '[' => depth += 1,
+                    ')' | '>' | ']' => depth -= 1,
+                    _ => {}
+                }
+                if ch == ',' && depth == 0 {
+                    parts.push(String::new());
+                } else {
+                    parts.last_mut().unwrap().push(ch);
+                }
+            }
+            parts
+                .iter()
                 .filter(|s| !s.trim().is_empty())
                 .map(|p| p.split(':').next().unwrap().trim().trim_start_matches("mut ").to_string())
                 .collect()
